@@ -85,6 +85,7 @@ type Event struct {
 	Err      string           `json:"err"`
 	Final    bool             `json:"final"`
 	Empty    bool             `json:"empty"`
+	Leapt    bool             `json:"leapt"` // the replica's edit clock made a leap earlier in the session
 }
 
 const NBug = 3 // width of the ref vectors in the trace (the trace specification uses the same constant)
@@ -95,6 +96,7 @@ type replica struct {
 	repo *repository.GoGitRepo
 	// the clock files have existed at some point (a clock that never existed is created on demand with value 1)
 	hadEdit, hadCreate bool
+	leapt              bool // its edit clock made a leap (step ClockLeap)
 }
 
 type World struct {
@@ -339,6 +341,7 @@ func (w *World) project(ev *Event, r *replica) {
 func (w *World) emit(ev *Event, r *replica) *Event {
 	ev.Sess = w.sess
 	ev.R = r.name
+	ev.Leapt = r.leapt
 	if ev.M == "" {
 		ev.M = "origin"
 	}
@@ -496,6 +499,14 @@ func (w *World) Do(s Step) {
 		w.mergeAll(r, s.M)
 	case "Reopen":
 		w.reopen(r, s.Loaders)
+	case "ClockLeap":
+		// the replica witnesses an edit time far above its own: what reading a bug created on a replica that far ahead does
+		c, err := r.repo.GetOrCreateClock("bugs-edit")
+		hx.Must(err)
+		hx.Must(r.repo.Witness("bugs-edit", c.Time()+1_000_001))
+		r.hadEdit = true
+		r.leapt = true
+		w.emit(&Event{Ev: "ClockLeap"}, r)
 	case "DeleteClocks":
 		// b: 0 = both clock files, 1 = the edit clock only, 2 = the creation clock only
 		ev := &Event{Ev: "DeleteClocks", B: s.B}
